@@ -63,6 +63,9 @@ def replay_case(rec, props: tuple, case: dict, extra=None):
             if rec.violations:
                 return None
     res = judge(rec, props, case, want=case.get("want"), extra=extra)
+    if case.get("constructor_route") and res[0].ok:
+        for _ in range(3):
+            constructor_route(rec, props, case, res[0])
     if case.get("direct_section") and res[0].ok:
         from vmon import gen as _gen
 
@@ -236,3 +239,64 @@ def whole_charts(rec, props: tuple, seed: int, pid: str, shard_name: str, count:
                     on_ok(case, out)
         if rec.full:
             break
+
+
+# ------------------------------------------------------------------------------------------ notes built through the public factories
+_ROUTE = 0
+
+
+def constructor_route(rec, props: tuple, case: dict, out, max_notes: int = 400) -> bool:
+    """A note event is a note event however it was obtained: the documented factory NoteEvent.from_parsed_data(datas, prev_event,
+    star_power_events, bpm_events[, proximal_bpm_event_index, star_power_event_index]) is fed data objects built with the public
+    NoteEvent.ParsedData constructor (not parsed from text), with the two "for optimization only" hints passed by keyword,
+    positionally in the documented order, or left out (rotating); every note must equal the one the whole-chart parse produced.
+    A TypeError from the call itself (signature no longer callable this way) is reported as skipped, never as a violation."""
+    global _ROUTE
+    if not set(props) & set(TRACK_PROPS):
+        return True
+    import chartparse.instrument as I
+
+    from vmon import harness, observe
+
+    chart = out.chart
+    be = chart.sync_track.bpm_events
+    for key, ttr in case["truth"].get("tracks", {}).items():
+        i, d = key.split("/")
+        tr = chart.instrument_tracks.get(harness.Instrument[i], {}).get(harness.Difficulty[d])
+        if tr is None or not ttr["groups"] or len(ttr["groups"]) != len(tr.note_events):
+            continue
+        _ROUTE += 1
+        form = ("keyword", "positional", "omitted")[_ROUTE % 3]
+        sps = tr.star_power_events
+        prev, bi, si = None, 0, 0
+        rcase = {"text": case["text"], "truth": case["truth"], "constructor_route": key, "form": form}
+        for k, g in enumerate(ttr["groups"][:max_notes]):
+            fl = g.get("flag_len", 0)
+            pairs = ([(7, g["open"])] if g.get("open") is not None else []) + [(int(x), g["lanes"][x]) for x in sorted(g["lanes"], key=int)] + \
+                ([(5, fl)] if g.get("forced") else []) + ([(6, fl)] if g.get("tap") else [])
+            rec.ev()
+            try:
+                datas = [I.NoteEvent.ParsedData(tick=g["tick"], note_track_index=I.NoteTrackIndex(idx), sustain=ln) for idx, ln in pairs]
+                if form == "keyword":
+                    ev, bi, si = I.NoteEvent.from_parsed_data(datas, prev, sps, be, proximal_bpm_event_index=bi, star_power_event_index=si)
+                elif form == "positional":
+                    ev, bi, si = I.NoteEvent.from_parsed_data(datas, prev, sps, be, bi, si)
+                else:
+                    ev, _, _ = I.NoteEvent.from_parsed_data(datas, prev, sps, be)
+            except TypeError as e:
+                rec.mon("constructor_route_skipped")
+                rec.diag(f"constructor route skipped: {e}")
+                return True
+            except Exception as e:  # noqa
+                rec.violation("constructor-route", f"{key} note #{k} (tick {g['tick']}): NoteEvent.from_parsed_data on constructor-built data (hints {form}) "
+                              f"raised {harness.exc_str(e)} although the whole-chart parse built this note", rcase, f"constructor-route:{form}:raised")
+                return False
+            got, want = observe.observe_note(ev), observe.observe_note(tr.note_events[k])
+            if got != want:
+                diff = {f: (want[f], got[f]) for f in want if got[f] != want[f]}
+                rec.violation("constructor-route", f"{key} note #{k} (tick {g['tick']}): built through NoteEvent.ParsedData(...) + from_parsed_data (hints "
+                              f"{form}) it differs from the parsed note: (parsed, built) = {diff}", rcase, f"constructor-route:{form}:differs")
+                return False
+            prev = ev
+        rec.cls(f"notes_built_through_public_factories:hints_{form}")
+    return True
